@@ -278,28 +278,38 @@ func nonZero(c classdef.Table) map[uint16]uint16 {
 	return res
 }
 
-// classDefOverflows reports whether the table can only be stored in format
-// 1 with glyphCount 65536, which the format cannot express (format 2 is
-// always possible, so this is a question of the encoder's format choice).
-func classDefWraps(c classdef.Table) bool {
-	nz := nonZero(c)
-	f1, f2 := refot.MinClassDefSize(nz)
-	return f1 == 6+2*65536 && f1 <= f2
+// classDefState classifies a table by what the binary format can hold:
+// "ok", "needs-format2" (all 65536 glyphs classified, so format 1 with its
+// 16-bit glyphCount is impossible, but at most 65535 ranges), or
+// "unrepresentable" (all 65536 glyphs classified in 65536 ranges).
+func classDefState(c classdef.Table) string {
+	f1, f2 := refot.MinClassDefSize(nonZero(c))
+	switch {
+	case f1 == refot.Impossible && f2 == refot.Impossible:
+		return "unrepresentable"
+	case f1 == refot.Impossible:
+		return "needs-format2"
+	}
+	return "ok"
 }
 
 func checkClassDef(c classdef.Table) (labels []string, f *failure) {
 	prefix := []byte{1, 2, 3, 4, 5}
 	var data []byte
 	var encLen int
+	state := classDefState(c)
+	key := "clause:classdef"
+	if state != "ok" {
+		key = "wrap:" + siteClassDefCount
+	}
 	if pn := guard.Try(func() { data = c.Append(append([]byte{}, prefix...)); encLen = c.AppendLen() }); pn != nil {
-		return nil, &failure{"clause:classdef", fmt.Sprintf("Append: %s", pn)}
+		if state == "unrepresentable" {
+			return []string{"refused-loudly"}, nil
+		}
+		return nil, &failure{pn.Key(), fmt.Sprintf("Append refuses a representable table: %s", pn)}
 	}
 	if !bytes.HasPrefix(data, prefix) {
 		return nil, &failure{"clause:classdef", "Append clobbers the buffer it appends to"}
-	}
-	key := "clause:classdef"
-	if classDefWraps(c) {
-		key = "wrap:" + siteClassDefCount
 	}
 	body := data[len(prefix):]
 	if encLen != len(body) {
@@ -325,7 +335,10 @@ func checkClassDef(c classdef.Table) (labels []string, f *failure) {
 	if e := equal(normClass(c), got); e != nil {
 		return nil, &failure{key, fmt.Sprintf("Read(Append(x)) != x: %v", e)}
 	}
-	labels = append(labels, fmt.Sprintf("classdef-format%d", cd.Format))
+	if state == "unrepresentable" {
+		return nil, &failure{"harness:overflow-class-consistent", "HARNESS: class table claimed unrepresentable but the encoding is consistent"}
+	}
+	labels = append(labels, fmt.Sprintf("classdef-format%d", cd.Format), "classdef:"+state)
 	if f1, f2 := refot.MinClassDefSize(want); f1 == f2 {
 		labels = append(labels, "classdef-format-tie")
 	}
@@ -335,7 +348,7 @@ func checkClassDef(c classdef.Table) (labels []string, f *failure) {
 func TestC08ClassDef(t *testing.T) {
 	rapid.Check(t, func(t *rapid.T) {
 		c, kind := genClassDef(t, "cd")
-		if classDefWraps(c) && skipSite(siteClassDefCount) {
+		if classDefState(c) != "ok" && skipSite(siteClassDefCount) {
 			// excluded by construction: drop the last glyph
 			delete(c, 0xFFFF)
 		}
